@@ -451,10 +451,36 @@ func genC16(r *simrt.Rand, tier string, idx uint64) *Plan {
 	}
 	// the updater
 	up := ClientPlan{}
+	cur := p.Params["warmup_ms"] * 1000 // µs since the Client was created (its detector ticks from then)
+	tickUS := p.Params["tick_ms"] * 1000
 	for k := 1; k < len(p.Lists); k++ {
-		up.Ops = append(up.Ops, Op{Kind: "sleep", N: r.Intn(600000)}, Op{Kind: "spin", N: r.Intn(8)}, Op{Kind: "update", List: k})
+		sl := r.Intn(600000)
+		if prev := p.Lists[k-1]; r.Chance(1, 2) && len(prev) > 0 && prev[0] >= 0 {
+			// Update at the very instant a probe of a target of the previous list completes: the targets
+			// installed by the previous Update are probed at the next detector tick and answer after
+			// their scripted latency
+			i := prev[r.Intn(len(prev))]
+			if i < 0 {
+				i = prev[0]
+			}
+			at := (cur+tickUS-1)/tickUS*tickUS + p.Targets[i].Lat[0][1]
+			for at <= cur {
+				at += tickUS
+			}
+			sl = at - cur
+		}
+		cur += sl
+		up.Ops = append(up.Ops, Op{Kind: "sleep", N: sl}, Op{Kind: "spin", N: r.Intn(4)}, Op{Kind: "update", List: k})
 	}
 	p.Clients = append(p.Clients, up)
+	// callers that start right after an Update
+	if r.Chance(1, 2) {
+		cp := ClientPlan{Ops: []Op{{Kind: "sleep", N: cur - p.Params["warmup_ms"]*1000}, {Kind: "spin", N: 2 + r.Intn(8)}}}
+		for i := 0; i < 2+r.Intn(4); i++ {
+			cp.Ops = append(cp.Ops, Op{Kind: cForms[r.Intn(len(cForms))]}, Op{Kind: "sleep", N: r.Intn(20000)})
+		}
+		p.Clients = append(p.Clients, cp)
+	}
 	return p
 }
 
